@@ -405,49 +405,73 @@ func (f FunctionBuilder) Compile(ctx *cert.CertificateContext) (*pkix.Extension,
 func Validate(profile CertificateProfile, content CertificateContent) bool {
 	//check subject attributes
 	if profile.SubjectAttributes.Attributes != nil {
-		//reverse subject, since we are comparing against a string representation
-		subject := make(pkix.RDNSequence, len(content.Subject))
-		copy(subject, content.Subject)
-		for i, j := 0, len(subject)-1; i < j; i, j = i+1, j-1 {
-			subject[i], subject[j] = subject[j], subject[i]
-		}
-		wantAttribute := 0
-		haveAttribute := 0
-		for {
-			if wantAttribute >= len(profile.SubjectAttributes.Attributes) ||
-				haveAttribute >= len(subject) {
-				break
-			}
-
-			currentAttribute := profile.SubjectAttributes.Attributes[wantAttribute].Attribute
-			wantAt, err := GetRdnAttributeOid(currentAttribute)
+		attributes := profile.SubjectAttributes.Attributes
+		want := make([]asn1.ObjectIdentifier, len(attributes))
+		for i, attribute := range attributes {
+			wantAt, err := GetRdnAttributeOid(attribute.Attribute)
 			if err != nil {
 				//do we have a custom oid?
-				oid, err := cert.OidFromString(currentAttribute)
+				wantAt, err = cert.OidFromString(attribute.Attribute)
 				if err != nil {
 					logging.Warningf("profile violation: can't resolve %v to a known attribute OID",
-						currentAttribute)
+						attribute.Attribute)
 					return false
 				}
-				wantAt = oid
 			}
+			want[i] = wantAt
+		}
 
-			if wantAt.Equal(subject[haveAttribute][0].Type) {
-				wantAttribute++
-				haveAttribute++
-			} else {
-				if profile.SubjectAttributes.AllowOther {
-					haveAttribute++
-				} else {
-					logging.Warningf("profile violation: expected %v at this position, but got %v and allowOther is false",
-						wantAt, subject[haveAttribute][0].Type)
+		//reverse subject, since we are comparing against a string representation
+		have := make([]asn1.ObjectIdentifier, len(content.Subject))
+		for i, rdn := range content.Subject {
+			if len(rdn) == 0 {
+				logging.Warningf("profile violation: subject contains an empty RDN")
+				return false
+			}
+			have[len(have)-i-1] = rdn[0].Type
+		}
+
+		if profile.SubjectAttributes.AllowOther {
+			//order is not enforced, but mandatory attributes must show up
+			for i, attribute := range attributes {
+				if attribute.Optional {
+					continue
+				}
+				found := false
+				for _, haveAt := range have {
+					if want[i].Equal(haveAt) {
+						found = true
+						break
+					}
+				}
+				if !found {
+					logging.Warningf("profile violation: mandatory attribute %v is missing", attribute.Attribute)
 					return false
+				}
+			}
+			return true
+		}
+
+		//fits[i][j]: the subject from position j on can be laid over the
+		//profile attributes from position i on, leaving out optional ones only
+		fits := make([][]bool, len(want)+1)
+		for i := range fits {
+			fits[i] = make([]bool, len(have)+1)
+		}
+		fits[len(want)][len(have)] = true
+		for i := len(want) - 1; i >= 0; i-- {
+			for j := len(have); j >= 0; j-- {
+				if j < len(have) && want[i].Equal(have[j]) && fits[i+1][j+1] {
+					fits[i][j] = true
+				} else if attributes[i].Optional && fits[i+1][j] {
+					fits[i][j] = true
 				}
 			}
 		}
 
-		if haveAttribute < len(content.Subject) && !profile.SubjectAttributes.AllowOther {
-			logging.Warningf("profile violation: provided number of attributes larger than specified in profile while allowOther is false")
+		if !fits[0][0] {
+			logging.Warningf("profile violation: subject attributes %v do not match the profile's attribute list %v "+
+				"(in order, leaving out optional ones only) and allowOther is false", have, want)
 			return false
 		}
 	}
